@@ -6,6 +6,10 @@
 
 namespace sim
 {
+int64_t liveHeapBytes();
+void simClockEnable(bool on);
+void simClockSet(uint64_t ns);
+uint64_t simClockReads();
 
 static OutputTap g_tap = nullptr;
 void setOutputTap(OutputTap tap)
@@ -98,6 +102,9 @@ World::World(const Plan& p)
     statusEnabled = plan.cfgGet("status", 0) != 0;
     typedViews = plan.cfgGet("typed", 0) != 0 || is("C03") || is("C15") || is("C13") || is("C16");
     plife = static_cast<uint64_t>(plan.cfgGet("plife", 0));
+    clockJumpSeed = static_cast<uint64_t>(plan.cfgGet("clockjump", 0));
+    if (clockJumpSeed)
+        fault("wall-clock-jumps");
     lib::setHostileLocale(is("C15") && plan.cfgGet("locale", 0) != 0);
     lib::setMovedFromReuse(is("C20"));
     if (is("C15") && plan.cfgGet("locale", 0))
@@ -302,6 +309,7 @@ void World::runOps(size_t fromOp, size_t toOp)
         if (t < now)
             t = now;
         advanceTo(t);
+        syncClock();
         switch (it.get("k"))
         {
             case OP_ENC:
@@ -539,7 +547,7 @@ void World::applyFaults(const Item& op, std::vector<InFlight>& frames, std::vect
                     fr.allocFail = static_cast<long>(std::min<int64_t>(std::max<int64_t>(0, a), 100000));
                 break;
             case F_CORRUPT_VER:
-                if (fr.isSegmentFrame && fr.bytes.size() >= wire::CMP_HDR)
+                if (fr.isSegmentFrame && !fr.hasLead && fr.bytes.size() >= wire::CMP_HDR)
                 {
                     uint8_t v = static_cast<uint8_t>(a);
                     if (v == 0)
@@ -552,7 +560,7 @@ void World::applyFaults(const Item& op, std::vector<InFlight>& frames, std::vect
                 }
                 break;
             case F_CORRUPT_TYPE:
-                if (fr.isSegmentFrame && fr.bytes.size() >= wire::CMP_HDR)
+                if (fr.isSegmentFrame && !fr.hasLead && fr.bytes.size() >= wire::CMP_HDR)
                 {
                     uint8_t v = static_cast<uint8_t>(a);
                     if (v == fr.bytes[4])
@@ -632,8 +640,23 @@ void World::checkKept(bool all)
     ++keptChecks;
 }
 
+// The simulated wall clock the library would see if it read one (simclock.cpp): simulated network time, plus - with
+// cfg clockjump - a seeded jump ahead before every delivery and operation: milliseconds to days pass between two frames.
+void World::syncClock()
+{
+    if (clockJumpSeed)
+    {
+        static const uint64_t steps[] = {0, 0, 1000000ULL, 50000000ULL, 1000000000ULL, 2500000000ULL, 4000000000ULL, 11000000000ULL, 61000000000ULL,
+                                         3601000000000ULL, 86401000000000ULL};
+        clockOffsetNs += steps[mix64(clockJumpSeed + clockTicks) % (sizeof steps / sizeof steps[0])];
+    }
+    ++clockTicks;
+    simClockSet(now * 1000ULL + clockOffsetNs);
+}
+
 void World::deliver(InFlight& f)
 {
+    syncClock();
     res.deliveries++;
     const size_t n = f.bytes.size();
     // exact-size heap copy, released right after decode returns
@@ -898,8 +921,24 @@ void World::deliver(InFlight& f)
         uint8_t* b2 = new uint8_t[n ? n : 1];
         memcpy(b2, f.bytes.data(), n);
         auto direct = lib::Dec::tecmpDecode(b2, n);
+        // the same storage decoded once more: still the packets of the message that was put there (a decoder has no
+        // business writing to its input; a second look at the same capture buffer is what a replaying tool does)
+        auto again = lib::Dec::tecmpDecode(b2, n);
+        const bool inputWritten = n && memcmp(b2, f.bytes.data(), n) != 0;
         delete[] b2;
-        res.apiCalls++;
+        res.apiCalls += 2;
+        if (inputWritten)
+            violate("tecmp.input-written", "TECMP::Decoder::Decode modified the buffer it was given");
+        if (again.size() != direct.size())
+            violate("tecmp.redecode", "decoding the same buffer a second time returns " + std::to_string(again.size()) + " packets, the first time " +
+                                          std::to_string(direct.size()));
+        else
+            for (size_t i = 0; i < direct.size(); ++i)
+                if (lib::digest(direct[i]) != lib::digest(again[i]))
+                {
+                    violate("tecmp.redecode", "decoding the same buffer a second time returns a different packet " + std::to_string(i));
+                    break;
+                }
         if (direct.size() != out.size())
             violate("tecmp.count", "TECMP::Decoder::Decode and Decoder::decode disagree on the number of packets");
         else
@@ -1079,6 +1118,53 @@ void World::finish()
             violate("pend.not-empty-at-quiescence", std::to_string(pend.size()) + " reassembly entries left after all messages completed");
         if (pend.empty())
             probe("quiescent-empty");
+        // "... so traffic without open messages leaves the decoder's memory at its baseline however long it runs":
+        // from a quiescent decoder, thousands of frames that open nothing (stray continuation and last segments on known
+        // and unknown endpoints, unsegmented messages, rejected frames) - the heap must not have grown afterwards.
+        if (pend.empty() && must.empty() && either.empty() && liveHeapBytes() >= 0 && plan.cfgGet("straysoak", 0))
+        {
+            const uint64_t seed = static_cast<uint64_t>(plan.cfgGet("straysoak", 0));
+            std::vector<Endpoint> eps;
+            for (auto& kv : nodes)
+                eps.push_back(Endpoint{kv.second.dev, kv.second.stream});
+            eps.push_back(Endpoint{0x7777, 0x77});
+            auto soak = [&](size_t count, uint64_t salt)
+            {
+                for (size_t i = 0; i < count; ++i)
+                {
+                    const uint64_t r = mix64(seed + salt * 1000003 + i);
+                    const Endpoint ep = (r & 3) == 0 ? Endpoint{static_cast<uint16_t>(r >> 16), static_cast<uint8_t>(r >> 8)} : eps[(r >> 4) % eps.size()];
+                    const size_t len = (r >> 32) % 40;
+                    Bytes f(wire::CMP_HDR + wire::MSG_HDR + len, static_cast<uint8_t>(r >> 40));
+                    wire::CmpHdr h;
+                    h.version = 1;
+                    h.dev = ep.dev;
+                    h.stream = ep.stream;
+                    h.mtype = 1;
+                    h.ctr = static_cast<uint16_t>(r >> 44);
+                    wire::writeCmpHdr(f.data(), h);
+                    wire::MsgHdr m;
+                    m.ts = i;
+                    m.id32 = 5;
+                    const unsigned kind = (r >> 12) % 8;
+                    m.flags = kind < 3 ? wire::SEG_MID : (kind < 6 ? wire::SEG_LAST : wire::SEG_NONE);
+                    m.ptype = 0x20;
+                    m.plen = static_cast<uint16_t>(kind == 7 ? len + 9 : len);  // kind 7: declares more than the frame holds (rejected)
+                    wire::writeMsgHdr(f.data() + wire::CMP_HDR, m);
+                    (void) dec->decode(f.data(), f.size());
+                }
+            };
+            soak(300, 1);  // warm-up: whatever one stray legitimately leaves (nothing) has been paid for
+            const int64_t before = liveHeapBytes();
+            soak(3000, 2);
+            const int64_t after = liveHeapBytes();
+            res.apiCalls += 3300;
+            probe("stray-soak");
+            if (!dec->pending().empty())
+                violate("pend.extra", "frames that open nothing left " + std::to_string(dec->pending().size()) + " pending entries");
+            else if (after - before > 16384)
+                violate("pend.heap-growth", "3000 frames that open no message grew the heap by " + std::to_string(after - before) + " bytes (pending table empty)");
+        }
     }
     if (statusEnabled && stat)
         ev(stat->digestAll());  // what the tracker holds at the end is an output of the run (C20: fill differential)
@@ -1354,9 +1440,18 @@ void World::opStale(const Item& op)
 
 RunResult execPlan(const Plan& plan)
 {
-    World w(plan);
-    w.run();
-    return std::move(w.res);
+    simClockEnable(true);
+    simClockSet(0);
+    RunResult r;
+    {
+        World w(plan);
+        w.run();
+        r = std::move(w.res);
+    }
+    if (simClockReads())
+        r.probes["wall-clock-reads-during-the-run"] += simClockReads();
+    simClockEnable(false);
+    return r;
 }
 
 }  // namespace sim
